@@ -88,6 +88,11 @@ type FuncEnc struct {
 	relevant     map[string]bool
 	axioms       []axiomLine
 	frameLocs    []assignLoc
+	ghostSorts   map[string]string
+	blockTargets map[*ssa.BasicBlock]map[string][]ssa.Value
+	curTarget    ssa.Value
+	loadTop      string
+	verTop       map[string]string
 }
 
 func (fe *FuncEnc) sorts() *Sorts { return fe.eng.sorts }
@@ -210,6 +215,9 @@ func (fe *FuncEnc) reset() {
 	fe.notes = nil
 	fe.axioms = nil
 	fe.frameLocs = nil
+	fe.ghostSorts = map[string]string{}
+	fe.verTop = map[string]string{}
+	fe.loadTop = ""
 }
 
 // Encode generates all obligations of the function.
@@ -229,6 +237,7 @@ func (fe *FuncEnc) Encode() (err error) {
 	fe.analyseLocals()
 	fe.findLoops()
 	fe.blockWrites = map[*ssa.BasicBlock]map[string]bool{}
+	fe.blockTargets = map[*ssa.BasicBlock]map[string][]ssa.Value{}
 	fe.relevant = map[string]bool{}
 	// pass 1: record which heap variables each block writes
 	fe.recording = true
@@ -342,6 +351,39 @@ func (fe *FuncEnc) findLoops() {
 	}
 }
 
+// loopTargets returns the distinct SSA address values written in the loop for
+// heap variable n when all writes are targeted at values defined before the
+// loop; nil otherwise.
+func (fe *FuncEnc) loopTargets(li *loopInfo, n string) []ssa.Value {
+	var out []ssa.Value
+	seen := map[ssa.Value]bool{}
+	for blk := range li.blocks {
+		for _, v := range fe.blockTargets[blk][n] {
+			if v == nil {
+				return nil
+			}
+			switch x := v.(type) {
+			case *ssa.Parameter, *ssa.FreeVar, *ssa.Global:
+			case ssa.Instruction:
+				if li.blocks[x.Block()] || !x.Block().Dominates(li.header) {
+					return nil
+				}
+			default:
+				return nil
+			}
+			if !seen[v] {
+				seen[v] = true
+				out = append(out, v)
+			}
+		}
+	}
+	if len(out) == 0 || len(out) > 4 {
+		return nil
+	}
+	sort.Slice(out, func(i, j int) bool { return out[i].Name() < out[j].Name() })
+	return out
+}
+
 func (fe *FuncEnc) isBackEdge(from, to *ssa.BasicBlock) bool {
 	return to.Dominates(from)
 }
@@ -374,6 +416,7 @@ func (fe *FuncEnc) run() {
 	fn := fe.fn
 	st := &State{pc: "true", heap: map[string]string{}, locals: map[*ssa.Alloc]string{}, ghost: map[string]string{}, ep: fe.newEpoch()}
 	st.allocTop = fe.sc.declareNamed("allocTop@0", sInt)
+	st.ep.top = st.allocTop
 	fe.assume(st, "(>= "+st.allocTop+" 0)")
 	// parameters
 	fe.params = map[string]EV{}
@@ -442,6 +485,17 @@ func (fe *FuncEnc) run() {
 }
 
 // typeFacts returns facts that hold for every value of type t.
+// factTop is the allocation bound used for "this pointer refers to an allocated
+// object" facts: for a value just loaded from a heap-variable version, the
+// allocation top at the time that version was created (pointers stored in it
+// cannot be younger); otherwise the current top.
+func (fe *FuncEnc) factTop(st *State) string {
+	if fe.loadTop != "" {
+		return fe.loadTop
+	}
+	return st.allocTop
+}
+
 func (fe *FuncEnc) typeFacts(st *State, term string, t types.Type) string {
 	switch u := t.Underlying().(type) {
 	case *types.Basic:
@@ -461,7 +515,7 @@ func (fe *FuncEnc) typeFacts(st *State, term string, t types.Type) string {
 			return fmt.Sprintf("(and (<= (- 2147483648) %s) (< %s 2147483648))", term, term)
 		}
 	case *types.Pointer:
-		f := fmt.Sprintf("(and (<= 0 (hv_base %s)) (<= (hv_base %s) %s))", term, term, st.allocTop)
+		f := fmt.Sprintf("(and (<= 0 (hv_base %s)) (<= (hv_base %s) %s) (=> (not (= %s 0)) (< 0 (hv_base %s))))", term, term, fe.factTop(st), term, term)
 		if _, isStruct := u.Elem().Underlying().(*types.Struct); isStruct {
 			if _, named := u.Elem().(*types.Named); named {
 				// a non-nil *T refers to an object of dynamic type T
@@ -470,9 +524,9 @@ func (fe *FuncEnc) typeFacts(st *State, term string, t types.Type) string {
 		}
 		return f
 	case *types.Map:
-		return fmt.Sprintf("(and (<= 0 (hv_base %s)) (<= (hv_base %s) %s))", term, term, st.allocTop)
+		return fmt.Sprintf("(and (<= 0 (hv_base %s)) (<= (hv_base %s) %s) (=> (not (= %s 0)) (< 0 (hv_base %s))))", term, term, fe.factTop(st), term, term)
 	case *types.Slice:
-		return fmt.Sprintf("(and (<= 0 (hv_offs (hv_org %s))) (<= 0 (hv_len %s)) (<= (hv_len %s) (hv_cap %s)) (<= 0 (hv_base (hv_org %s))) (<= (hv_base (hv_org %s)) %s) (=> (= (hv_org %s) 0) (= (hv_cap %s) 0)))", term, term, term, term, term, term, st.allocTop, term, term)
+		return fmt.Sprintf("(and (<= 0 (hv_offs (hv_org %s))) (<= 0 (hv_len %s)) (<= (hv_len %s) (hv_cap %s)) (<= 0 (hv_base (hv_org %s))) (<= (hv_base (hv_org %s)) %s) (=> (= (hv_org %s) 0) (= (hv_cap %s) 0)) (=> (not (= (hv_org %s) 0)) (< 0 (hv_base (hv_org %s)))))", term, term, term, term, term, term, fe.factTop(st), term, term, term, term)
 	case *types.Interface:
 		return fmt.Sprintf("(and (<= 0 (hv_tag %s)) (=> (= (hv_tag %s) 0) (= (hv_val %s) 0)))", term, term, term)
 	case *types.Struct:
@@ -517,6 +571,27 @@ func (fe *FuncEnc) valName(v ssa.Value) string {
 	return v.Name()
 }
 
+// tryInv evaluates a loop-invariant clause. A clause that no longer binds to
+// the code (a local it names has disappeared) is dropped with a NOTE: the
+// obligations that depended on it then fail to discharge and are reported,
+// instead of the whole check stopping with an error.
+func (fe *FuncEnc) tryInv(env *Env, cl Clause, asInt bool) (t string, ok bool) {
+	defer func() {
+		if r := recover(); r != nil {
+			if ee, isEnc := r.(encErr); isEnc {
+				fe.note("loop invariant dropped, it no longer binds to the code: %s", string(ee))
+				t, ok = "", false
+				return
+			}
+			panic(r)
+		}
+	}()
+	if asInt {
+		return fe.evalInt(env, cl.Expr, cl.Where), true
+	}
+	return fe.evalBool(env, cl.Expr, cl.Where), true
+}
+
 // enterLoop cuts the loop at its header: invariants are asserted on entry,
 // everything the loop may modify is havocked, invariants are assumed.
 func (fe *FuncEnc) enterLoop(li *loopInfo, ins []*State) *State {
@@ -554,7 +629,9 @@ func (fe *FuncEnc) enterLoop(li *loopInfo, ins []*State) *State {
 		env := fe.envAt(pre, b)
 		env.phiOverride = entryVals
 		for _, inv := range spec.Invs {
-			fe.oblige(pre, fmt.Sprintf("inv%d", li.ordinal), inv.Label+".entry", fe.evalBool(env, inv.Expr, inv.Where), b.Instrs[0].Pos(), "loop invariant holds on entry: "+inv.Src)
+			if t, ok := fe.tryInv(env, inv, false); ok {
+				fe.oblige(pre, fmt.Sprintf("inv%d", li.ordinal), inv.Label+".entry", t, b.Instrs[0].Pos(), "loop invariant holds on entry: "+inv.Src)
+			}
 		}
 	}
 	// havoc
@@ -587,6 +664,19 @@ func (fe *FuncEnc) enterLoop(li *loopInfo, ins []*State) *State {
 			if srt == "" {
 				continue
 			}
+			// targeted havoc: every write to this variable in the loop goes to a
+			// cell whose address is computed before the loop
+			if tg := fe.loopTargets(li, n); tg != nil {
+				cur := fe.heapGetQuiet(st, n, srt)
+				inner := arrayElemSort(srt)
+				for _, v := range tg {
+					cell := fe.sc.declare(n+".cell", inner)
+					cur = fmt.Sprintf("(store %s %s %s)", cur, fe.val(v), cell)
+				}
+				st.heap[n] = fe.sc.define(n, srt, cur)
+				fe.noteWrite(n)
+				continue
+			}
 			st.heap[n] = fe.sc.declare(n, srt)
 			fe.noteWrite(n)
 		}
@@ -601,7 +691,11 @@ func (fe *FuncEnc) enterLoop(li *loopInfo, ins []*State) *State {
 	}
 	for g := range st.ghost {
 		if written["ghost:"+g] {
-			st.ghost[g] = fe.sc.declare("ghost."+g, sInt)
+			srt := fe.ghostSorts[g]
+			if srt == "" {
+				srt = sInt
+			}
+			st.ghost[g] = fe.sc.declare("ghost."+g, srt)
 		}
 	}
 	fe.bumpAllocTop(st)
@@ -650,11 +744,14 @@ func (fe *FuncEnc) enterLoop(li *loopInfo, ins []*State) *State {
 	if spec != nil {
 		env := fe.envAt(st, b)
 		for _, inv := range spec.Invs {
-			fe.assume(st, fe.evalBool(env, inv.Expr, inv.Where))
+			if t, ok := fe.tryInv(env, inv, false); ok {
+				fe.assume(st, t)
+			}
 		}
 		if spec.Decreases != nil {
-			m := fe.evalInt(env, spec.Decreases.Expr, spec.Decreases.Where)
-			fe.loopMeasure[b] = fe.sc.define("measure", sInt, m)
+			if m, ok := fe.tryInv(env, *spec.Decreases, true); ok {
+				fe.loopMeasure[b] = fe.sc.define("measure", sInt, m)
+			}
 		}
 	}
 	return st
@@ -703,12 +800,16 @@ func (fe *FuncEnc) backEdge(li *loopInfo, from *ssa.BasicBlock, st *State) {
 		pos = b.Instrs[0].Pos()
 	}
 	for _, inv := range spec.Invs {
-		fe.oblige(st, fmt.Sprintf("inv%d", li.ordinal), inv.Label+".preserved", fe.evalBool(env, inv.Expr, inv.Where), pos, "loop invariant is preserved: "+inv.Src)
+		if t, ok := fe.tryInv(env, inv, false); ok {
+			fe.oblige(st, fmt.Sprintf("inv%d", li.ordinal), inv.Label+".preserved", t, pos, "loop invariant is preserved: "+inv.Src)
+		}
 	}
 	if spec.Decreases != nil {
-		m := fe.evalInt(env, spec.Decreases.Expr, spec.Decreases.Where)
-		m0 := fe.loopMeasure[b]
-		fe.oblige(st, fmt.Sprintf("decr%d", li.ordinal), "", fmt.Sprintf("(and (< %s %s) (>= %s 0))", m, m0, m0), pos, "loop measure decreases and is bounded: "+spec.Decreases.Src)
+		if m, ok := fe.tryInv(env, *spec.Decreases, true); ok {
+			if m0 := fe.loopMeasure[b]; m0 != "" {
+				fe.oblige(st, fmt.Sprintf("decr%d", li.ordinal), "", fmt.Sprintf("(and (< %s %s) (>= %s 0))", m, m0, m0), pos, "loop measure decreases and is bounded: "+spec.Decreases.Src)
+			}
+		}
 	}
 }
 
